@@ -204,6 +204,12 @@ P_C20R(pre, e) ==
           Has(e.st.mkt, e.a.mid) /\ ~e.st.mkt[e.a.mid].closed /\ e.st.mkt[e.a.mid].ncleared = 0,
           <<e.ev, e.a.mid, IF Has(e.st.mkt, e.a.mid) THEN <<e.st.mkt[e.a.mid].closed, e.st.mkt[e.a.mid].ncleared>> ELSE <<>>>>)
 
+\* the closure worker marks a closed market's orders and its market summary as fetched, one flag each per client
+P_C20F(pre, e) ==
+    (e.ev = "cleared" /\ Has(pre.mkt, e.a.mid) /\ pre.mkt[e.a.mid].closed /\ Has(e.st.mkt, e.a.mid)) =>
+       Ck("C20", "ClearedFlagsSeparate", e.st.mkt[e.a.mid].ncleared = pre.mkt[e.a.mid].ncleared + 2,
+          <<e.a.mid, pre.mkt[e.a.mid].ncleared, e.st.mkt[e.a.mid].ncleared>>)
+
 P_C20L(pre, e) ==
     e.ev = "close" =>
        /\ Ck("C20", "CallbackOncePerClosingUpdate",
@@ -230,7 +236,7 @@ StepOK(pre, e) ==
     /\ ("C03" \in Props => P_C03L(pre, e))
     /\ ("C10" \in Props => P_C10L(pre, e))
     /\ ("C15" \in Props => P_C15L(pre, e))
-    /\ ("C20" \in Props => P_C20L(pre, e) /\ P_C20R(pre, e))
+    /\ ("C20" \in Props => P_C20L(pre, e) /\ P_C20R(pre, e) /\ P_C20F(pre, e))
 
 Init == tid \in 1..Len(Traces) /\ l = 1
 Next == /\ l < NSteps(tid)
